@@ -1,7 +1,8 @@
 """C09 — see DESIGN.md section 6/C09. Model M1 (lean/JoblibModel/ParallelProto.lean), theorems lean/JoblibProofs/C09.lean,
-deterministic scenarios through harness/ctl.py, oracles in harness/m1.py."""
+deterministic scenarios through harness/ctl.py, oracles in harness/m1.py.  `_utils.eval_expr` and the `pre_dispatch` resolution:
+model lean/JoblibModel/EvalExpr.lean, correspondence streams and oracles in harness/evalexpr.py."""
 
-from .. import m1
+from .. import evalexpr, m1
 
 REQUIRED_THEOREMS = [
     "C09.no_pull_after_abort",
@@ -15,6 +16,21 @@ REQUIRED_THEOREMS = [
     "C09.auto_batch_size_at_most_doubles",
     "C09.sequential_is_lazy",
     "C09.sequential_no_pull_after_failure",
+    "C09.eval_arithmetic_only",
+    "C09.eval_rejects_cleanly_partial",
+    "C09.eval_rejects_cleanly_when_ops_succeed",
+    "C09.eval_rejects_cleanly_counterexample",
+    "C09.eval_exception_classes",
+    "C09.eval_sound",
+    "C09.floor_semantics",
+    "C09.resolve_amount_fixed",
+    "C09.lookahead_bound_user",
+    "C09.resolve_common_texts",
+    "C09.lookahead_bound_default",
+    "C09.all_is_eager_user",
+    "C09.resolve_numbers",
+    "C09.resolve_zero_negative_witnesses",
+    "C09.resolve_text_witnesses",
     "M1L.reachable_inv",
     "M1L.mutex",
     "M1L.lock_owner_iff",
@@ -28,6 +44,13 @@ TRUSTED_EXTRA = [
     "M1L (lean/JoblibModel/ParallelLock.lean, theorems M1L.*): a second, small-step, multi-threaded model of the same protocol; one atomic step = the code of one thread between two scheduling points (outermost acquire/release of Parallel._lock, a backend call, time.sleep, an unlocked access to _aborting/_exception/_iterating/_original_iterator/n_dispatched_tasks/n_completed_tasks/_jobs/tracker status), any number of callback threads, every interleaving; scope: one call on a fresh object, ordered modes, no timeout; tied to the code by step-log equality of forced real-thread schedules (instrumented lock, controllable backend, descriptor-instrumented shared attributes, no line numbers); assumed: threading.RLock mutual exclusion, atomicity of a single attribute load/store under the GIL; accesses to attributes outside the list and the input iterator's __next__ are atomic with their segment; termination under the drain schedule is proved (M1L.quiescent_termination*)",
     "M1 granularity: completion callbacks are atomic and happen at hook points of the caller (configure, compute_batch_size, sleep, consumer "
     "pauses, inside backend.abort_everything, between two calls and after the last one); interleavings inside a callback or between two bytecodes of the caller are not in the model",
+    "eval_expr / pre_dispatch (lean/JoblibModel/EvalExpr.lean): the AST datatype stands for what ast.parse(…, mode='eval').body can be; CPython's "
+    "parser is modelled only on a sub-grammar (numeric literals, names, parentheses, the 13+3 operators, .name trailers; everything else and "
+    "texts over 400 characters: the model abstains) and tied by correspondence only; the operator functions on int/bool/float/str/bytes/None "
+    "and int() are modelled, not verified (floats as exact binary64 values: + - * / // % and int→float conversion correctly rounded, "
+    "float ** float tracked only for integer exponents |e| ≤ 2200 with an exactly representable result — assumes libm pow errs by < 1 ulp; "
+    "complex arithmetic, printf-style %, sequences longer than 2^20, integer powers over 4e6 bits: abstention); the arithmetic-only theorems "
+    "hold for every interpretation of the operator functions; sys.maxsize = 2^63-1; RecursionError/MemoryError outside the model",
     "modelled, not verified: the backend contract (each submitted batch executed at most once, its callback invoked at most once), "
     "threading.RLock, itertools.islice, queue.Queue, collections.deque, pickling of batches to worker processes",
 ]
@@ -35,8 +58,17 @@ FOCUSES = (None, 'fail')
 
 
 def run(ctx):
-    return m1.run_prop(ctx, "C09", FOCUSES)
+    if ctx.replay and str(ctx.replay.get("case", {}).get("kind", "")).startswith("evalexpr"):
+        return evalexpr.replay(ctx)
+    out = m1.run_prop(ctx, "C09", FOCUSES)
+    if not ctx.replay:
+        evalexpr.run_streams(ctx, out)
+    return out
 
 
 def search(ctx, res):
-    return m1.search_prop(ctx, "C09", res, FOCUSES)
+    evalexpr.dedupe_pythonpath()
+    out = m1.search_prop(ctx, "C09", res, FOCUSES)
+    if any(str(d.get("stream")) in evalexpr.STREAMS for d in res.divergences) or not res.divergences:
+        evalexpr.run_streams(ctx, out, scale=10, salt="search")
+    return out
